@@ -310,6 +310,7 @@ RULES = [
     ("X-BUFFER", "buffering predicates (ordered or aggregate) and recursive expression predicates [shared]", lambda ctx: __import__("extra").buffering_predicates(ctx)),
     ("C06-R2", "no early stop while rows are buffered for aggregation [shared with C06]", lambda ctx: __import__("c06").r2(ctx)),
     ("C07-R6", "MIN / MAX range over the rows that have a value (empty and absent cells take no part)", lambda ctx: r6(ctx)),
+    ("X-PIPELINE", "the per-entry pipeline of check_file evaluated on its scenario table (filter, count, row, buffer key, separator, closed output) [shared]", lambda ctx: __import__("cfile").pipeline(ctx)),
 ]
 
 EXPLANATION = (
